@@ -292,6 +292,23 @@ func (P *Prog) EvalTablesClause(c *Clause, unit string) ([]*Obligation, error) {
 	if strings.HasPrefix(what, "terminal ") {
 		return P.evalTerminal(c, unit, tb, strings.Fields(what)[1:])
 	}
+	if strings.HasPrefix(what, "edge ") {
+		// tables[label] edge <source state> <event> <destination state>: some machine has exactly this transition
+		f := strings.Fields(what)
+		if len(f) != 4 {
+			return nil, fmt.Errorf("%s:%d: tables edge <source> <event> <destination>", c.File, c.Line)
+		}
+		o := &Obligation{Func: unit, Name: "[" + strings.Join(c.Labels, ",") + ":" + f[1] + "]", Kind: "ground", Detail: fmt.Sprintf("event %s takes a round from %s to %s", f[2], f[1], f[3]), Clause: c, Goal: "true", Guard: "true",
+			Solver: "table-eval", Result: "sat", Model: fmt.Sprintf("no machine has a transition from %q by event %q to %q", f[1], f[2], f[3]), Site: token.Position{Filename: c.File, Line: c.Line}}
+		for _, m := range tb.Machines {
+			for _, t := range m.Transitions {
+				if t.Source == f[1] && t.Event == f[2] && t.Dst == f[3] {
+					o.Result, o.Model = "unsat", ""
+				}
+			}
+		}
+		return []*Obligation{o}, nil
+	}
 	if what != "loadable" {
 		return nil, fmt.Errorf("%s:%d: unknown tables statement %q", c.File, c.Line, what)
 	}
